@@ -525,6 +525,18 @@ void runC11(Ctx &c)
                 case 2: // update, same shape
                     if (A.m.init)
                     {
+                        if (r.coin(0.4))
+                        {
+                            // almost the same polynomial again (finite-difference probe, converging optimiser iterate)
+                            double eps = std::pow(10.0, -(double)r.range(6, 12));
+                            for (int i = 0; i < A.m.C.rows(); ++i)
+                                for (int j = 0; j < dim; ++j)
+                                    if (r.coin(0.5))
+                                        A.m.C(i, j) = A.m.C(i, j) * (1.0 + eps * r.uni(-1, 1)) + (r.coin(0.2) ? eps * 1e-3 : 0.0);
+                            A.pp->update(A.m.bp, A.m.C, A.m.nc);
+                            trace.push_back("update_tiny_change obj" + std::to_string(a));
+                            break;
+                        }
                         A.m.C = genCoeffs(r, A.m.nseg() * A.m.nc, dim);
                         if (r.coin())
                             A.m.bp = genBreakpoints(r, A.m.nseg());
@@ -967,6 +979,14 @@ void runC20(Ctx &c)
             m.bp[0] = r.coin(0.3) ? r.pick(std::vector<double>{1e6, -1e6, 1e3}) : r.uni(-10, 10);
             for (int i = 0; i < m.nseg(); ++i)
                 m.bp[i + 1] = m.bp[i] + r.uni(0.05, 2.0);
+            const bool gridAligned = r.coin(0.2);
+            if (gridAligned)
+            {
+                // knots on a dyadic grid and steps that hit them exactly (a sample may coincide bit-exactly with a breakpoint)
+                m.bp[0] = 0.25 * r.range(-20, 20);
+                for (int i = 0; i < m.nseg(); ++i)
+                    m.bp[i + 1] = m.bp[i] + 0.25 * r.range(1, 6);
+            }
             auto pp = makePPoly(dim, fo)->makeCtor(m.bp, m.C, m.nc);
             double a, b, dt;
             int icls = r.range(0, 4);
@@ -1007,6 +1027,17 @@ void runC20(Ctx &c)
                 break;
             }
             }
+            if (gridAligned)
+            {
+                a = m.bp[r.range(0, m.nseg())];
+                b = m.bp[r.range(0, m.nseg())];
+                if (b < a)
+                    std::swap(a, b);
+                if (icls == 0)
+                    a = m.bp.front(), b = m.bp.back();
+                dt = r.pick(std::vector<double>{0.25, 0.125, 0.5, 0.0625, 0.75});
+                c.event("sequence.grid_aligned");
+            }
             if (!(dt > 0))
                 dt = 0.01;
             if (len / dt > 3e6)
@@ -1034,10 +1065,10 @@ void runC20(Ctx &c)
                 continue;
             // batch == pointwise
             {
-                int kk = r.range(0, std::min(3, m.nc));
+                int kk = gridAligned ? r.range(0, m.nc - 1) : r.range(0, std::min(3, m.nc));
                 MatrixXd B = pp->evalBatch(seq, kk);
                 bool ok = B.rows() == (int)seq.size();
-                size_t stride = std::max<size_t>(1, seq.size() / 300);
+                size_t stride = std::max<size_t>(1, seq.size() / (gridAligned ? 3000 : 300));
                 for (size_t q = 0; q < seq.size() && ok; q += stride)
                     ok = sameVec(B.row(q).transpose(), pp->eval(seq[q], kk));
                 c.require("C20.batch_equals_pointwise", ok, key);
